@@ -33,17 +33,18 @@
 EXTENDS Naturals, Sequences, FiniteSets, TLC
 
 CONSTANTS MaxCfg,     \* bound on configurations created in one behaviour
-          MaxTouch    \* bound on assignments per configuration
+          MaxTouch,   \* bound on assignments per configuration
+          DynKeys,    \* keys that may be added at run time to a configuration of a dynamic schema
+          MaxDyn      \* bound on such additions per configuration
 
 VARIABLES schema,     \* the schema descriptor (never changes)
-          heap,       \* sequence of configurations: [via, set]  (how made, keys assigned by the user)
+          heap,       \* sequence of configurations: [via, set, dyn]  (how made, keys assigned by the
+                      \* user, fields added at run time - dynamic schemas only)
           stdout,     \* sequence of strings written to standard output so far
           ev          \* last event with its result (observation; hidden from the fingerprint by VIEW)
 
 vars == <<schema, heap, stdout, ev>>
 View == <<schema, heap, stdout>>
-St   == [heap |-> heap, stdout |-> stdout]
-
 Range(s) == {s[i] : i \in DOMAIN s}
 
 ---------------------------------------------------------------------------
@@ -62,7 +63,10 @@ ListF(item)    == [kind |-> "list", item |-> item]
 DictF(k, v)    == [kind |-> "dict", keyf |-> k, valf |-> v]
 SchemaF(fs)    == [kind |-> "schema", fields |-> fs]
 CTypeF(nm, fs) == [kind |-> "ctype", name |-> nm, fields |-> fs]
-VirtualF       == [kind |-> "virtual"]
+VirtualF       == [kind |-> "virtual"]                  \* VirtualField(getter)
+VSetterF       == [kind |-> "vsetter"]                  \* VirtualField(getter, setter): still virtual
+\* Schema(dynamic=True): configurations accept assignments to unknown keys
+IsDynamic(s)   == "dynamic" \in DOMAIN s /\ s.dynamic
 MethodF(sig)   == [kind |-> "method", sig |-> sig]
 
 P(n, k, d, a)  == [n |-> n, k |-> k, d |-> d, a |-> a]
@@ -86,7 +90,7 @@ Expand(fs) ==
               ELSE << <<k, f>> >>) \o Expand(Tail(fs))
 
 IsMethod(f)     == f.kind = "method"
-IsVirtual(f)    == f.kind = "virtual"
+IsVirtual(f)    == f.kind \in {"virtual", "vsetter"}
 IsPersistent(f) == ~IsMethod(f) /\ ~IsVirtual(f)
 
 \* what the real Schema holds: schema._fields, in order
@@ -97,6 +101,10 @@ PersistentKeys(s)   == KeysWhere(s, IsPersistent)
 MethodKeys(s)       == KeysWhere(s, IsMethod)
 SettableKeys(s)     == KeysWhere(s, LAMBDA f : f.kind \in SettableKinds)
 FieldAt(s, key)     == (CHOOSE p \in Range(FieldsOf(s)) : p[1] = key)[2]
+\* the schema's field table as the public API shows it: iteration over the schema,
+\* get_fields(schema), the fields of a freshly built configuration
+KeySeq(s)           == [i \in DOMAIN FieldsOf(s) |-> FieldsOf(s)[i][1]]
+AllKeys(s)          == Range(KeySeq(s))
 
 ---------------------------------------------------------------------------
 (* well-formed signatures: what `def` accepts, with the first parameter positional *)
@@ -139,7 +147,7 @@ StorageStr(f) ==
       [] f.kind \in {"bool", "featureflag"} -> "bool"
       [] f.kind = "bytes" -> "bytes"
       [] f.kind = "challenge" -> "cincoconfig.fields.secure_field.DigestValue"
-      [] f.kind \in {"any", "field", "virtual"} -> "typing.Any"
+      [] f.kind \in {"any", "field", "virtual", "vsetter"} -> "typing.Any"
       [] f.kind = "list" -> IF f.item.kind = "nofield" THEN "typing.List"
                             ELSE "typing.List[" \o ItemStr(f.item) \o "]"
       [] f.kind = "dict" -> IF f.keyf.kind = "nofield" /\ f.valf.kind = "nofield" THEN "dict"
@@ -310,19 +318,24 @@ P_SameParams(m, sig) ==
         /\ m.kwonly = {ko[i].n : i \in DOMAIN ko}
         /\ m.varkw = [i \in DOMAIN vk |-> vk[i].n]
 
-P_Complete(s, x) ==
+\* free: fields a configuration of a dynamic schema gained at run time; whether the stub of that
+\* configuration declares them too is left open
+P_Complete(s, x, free) ==
     \* an annotated attribute for every field, virtual ones included (and nothing else)
-    /\ x.attrs = FieldKeys(s)
-    \* a constructor parameter for exactly the persistent fields
-    /\ x.ctor.params = PersistentKeys(s)
+    /\ FieldKeys(s) \subseteq x.attrs /\ x.attrs \subseteq FieldKeys(s) \cup free
+    \* a constructor parameter for exactly the persistent fields (a virtual field with a setter
+    \* is still virtual)
+    /\ PersistentKeys(s) \subseteq x.ctor.params /\ x.ctor.params \subseteq PersistentKeys(s) \cup free
     \* one method per instance method, with the parameters of the bound function
     /\ {m.name : m \in x.methods} = MethodKeys(s)
     /\ \A m \in x.methods : m.name \in MethodKeys(s) => P_SameParams(m, FieldAt(s, m.name).sig)
 
-\* generating had no side effect, as observed: (pre, post) of each of the three
-P_NoSideEffect(preHeap, postHeap, preOut, postOut, same) ==
+\* generating had no side effect, as observed: (pre, post) of heap and stdout, the schema's field
+\* table seen through the public API afterwards, and the deep snapshots
+P_NoSideEffect(preHeap, postHeap, preOut, postOut, preKeys, postKeys, postFresh, same) ==
     /\ postHeap = preHeap
     /\ postOut = preOut
+    /\ postKeys = preKeys /\ postFresh = preKeys
     /\ same.schema /\ same.heap
 
 ---------------------------------------------------------------------------
@@ -331,6 +344,8 @@ Targets == {"schema", "config", "ctype"}
 RootTypeName == "RootType"
 ClassFor(t) == CASE t = "schema" -> "SchemaStub" [] t = "config" -> "ConfigStub" [] t = "ctype" -> RootTypeName
 StubFor(t) == Stub(schema, ClassFor(t))
+\* observable state: skeys = [k for k, _ in schema] (= get_fields(schema)), fresh = get_fields(schema())
+St   == [heap |-> heap, stdout |-> stdout, skeys |-> KeySeq(schema), fresh |-> KeySeq(schema)]
 
 SchemaWF(s) == \A p \in Range(FieldsOf(s)) : IsMethod(p[2]) => SigWF(p[2].sig)
 
@@ -343,7 +358,7 @@ InitWith(s) ==
 \* schema() or RootType()
 NewConfig(via) ==
     /\ Len(heap) < MaxCfg
-    /\ heap' = Append(heap, [via |-> via, set |-> {}])
+    /\ heap' = Append(heap, [via |-> via, set |-> {}, dyn |-> {}])
     /\ ev' = [op |-> "NewConfig", via |-> via, out |-> "ok"]
     /\ UNCHANGED <<schema, stdout>>
 
@@ -356,26 +371,47 @@ Touch(c, k) ==
     /\ ev' = [op |-> "Touch", c |-> c, k |-> k, out |-> "ok"]
     /\ UNCHANGED <<schema, stdout>>
 
+\* cfg.k = 1 for a key the schema does not have: Config._set_value creates an AnyField in the
+\* CONFIGURATION's own field table (dynamic schemas only; the schema is not touched)
+AddDyn(c, k) ==
+    /\ IsDynamic(schema)
+    /\ c \in DOMAIN heap
+    /\ k \in DynKeys \ (AllKeys(schema) \cup heap[c].dyn)
+    /\ Cardinality(heap[c].dyn) < MaxDyn
+    /\ heap' = [heap EXCEPT ![c].dyn = @ \cup {k}]
+    /\ ev' = [op |-> "AddDyn", c |-> c, k |-> k, out |-> "ok"]
+    /\ UNCHANGED <<schema, stdout>>
+
+\* run-time fields of the object a stub is generated for
+FreeKeys(t, c) == IF t = "config" /\ c \in DOMAIN heap THEN heap[c].dyn ELSE {}
+WithExtra(x, da, dc) == [x EXCEPT !.attrs = @ \cup da, !.ctor.params = @ \cup dc]
+
 \* generate_stub(schema, "SchemaStub") | generate_stub(config, "ConfigStub") | generate_stub(RootType)
-GenStub(t, c) ==
+\* da / dc: the run-time fields the stub chooses to declare as attributes / constructor parameters
+GenStubWith(t, c, da, dc) ==
     /\ t \in Targets
     /\ IF t = "config" THEN c \in DOMAIN heap ELSE c = 0
-    /\ ev' = [op |-> "GenStub", target |-> t, c |-> c, out |-> "ok", res |-> StubFor(t),
+    /\ da \subseteq FreeKeys(t, c) /\ dc \subseteq FreeKeys(t, c)
+    /\ ev' = [op |-> "GenStub", target |-> t, c |-> c, out |-> "ok", res |-> WithExtra(StubFor(t), da, dc),
               extra |-> [schema |-> TRUE, heap |-> TRUE]]
     /\ UNCHANGED <<schema, heap, stdout>>
+\* (two nested quantifiers: this TLC evaluates "\E da, dc \in SUBSET {} : ..." to FALSE)
+GenStub(t, c) == \E da \in SUBSET FreeKeys(t, c) : \E dc \in SUBSET FreeKeys(t, c) : GenStubWith(t, c, da, dc)
 
 Next ==
     \/ \E via \in {"schema", "ctype"} : NewConfig(via)
     \/ \E c \in DOMAIN heap : \E k \in SettableKeys(schema) : Touch(c, k)
+    \/ \E c \in DOMAIN heap : \E k \in DynKeys : AddDyn(c, k)
     \/ \E t \in Targets : \E c \in 0..Len(heap) : GenStub(t, c)
 
 ---------------------------------------------------------------------------
 (* C20 *)
 C20_Valid    == \A t \in Targets : P_Valid(StubFor(t))
-C20_Complete == \A t \in Targets : P_Complete(schema, StubFor(t))
+C20_Complete == \A t \in Targets : P_Complete(schema, StubFor(t), {})
 \* what GenStub returned is valid and complete (ev is hidden by VIEW: checked as an action property)
 C20_Returned ==
-    [][ev'.op = "GenStub" => ev'.out = "ok" /\ P_Valid(ev'.res) /\ P_Complete(schema, ev'.res)]_vars
+    [][ev'.op = "GenStub" => ev'.out = "ok" /\ P_Valid(ev'.res)
+                             /\ P_Complete(schema, ev'.res, FreeKeys(ev'.target, ev'.c))]_vars
 C20_NoSideEffect ==
     [][ev'.op = "GenStub" => (schema' = schema /\ heap' = heap /\ stdout' = stdout)]_vars
 \* and nothing ever writes to standard output or alters the schema
